@@ -437,15 +437,7 @@ def run_op(op: Dict[str, Any], lazies: Dict[int, Any]) -> Any:
         return ["ok", None]
     if kind == "LAZY_STEP":
         g, got = lazies[op["id"]]
-        for _ in range(op.get("n", 1)):
-            if got and got[-1] == "<stop>":
-                break
-            try:
-                item = next(g)
-            except StopIteration:
-                got.append("<stop>")
-                break
-            got.append(_match_repr(item) if hasattr(item, "span") else [list(item[0]), item[1]])
+        _lazy_advance(g, got, op.get("n", 1))
         return ["ok", list(got)]
     if kind == "LAZY_CLOSE":
         g, got = lazies.pop(op["id"])
@@ -454,6 +446,25 @@ def run_op(op: Dict[str, Any], lazies: Dict[int, Any]) -> Any:
         del g
         return ["ok", None]
     raise C.HarnessError(f"unknown op {kind}")
+
+
+def _lazy_advance(g, got: List[Any], n: int) -> None:
+    """Pull up to n items; the end of the generator (exhausted, or raised - after
+    which a generator is finished for good) is recorded once and is final."""
+    for _ in range(n):
+        if got and (got[-1] == "<stop>" or (isinstance(got[-1], list) and got[-1] and got[-1][0] == "<raised>")):
+            return
+        try:
+            item = next(g)
+        except StopIteration:
+            got.append("<stop>")
+            return
+        except SimAbort:
+            raise
+        except Exception as e:  # noqa: BLE001
+            got.append(["<raised>", type(e).__name__, ADDR_RE.sub("0xX", str(e))[:200]])
+            return
+        got.append(_match_repr(item) if hasattr(item, "span") else [list(item[0]), item[1]])
 
 
 def judged(op: Dict[str, Any]) -> bool:
@@ -477,13 +488,7 @@ def run_reference_op(op: Dict[str, Any]) -> Any:
 
         g = pm.finditer(op["pattern"], op["x"]) if op["fn"] == "finditer" else processing.find_replace(op["x"], op["pattern"], op["repl"])
         got: List[Any] = []
-        for _ in range(op["n"]):
-            try:
-                item = next(g)
-            except StopIteration:
-                got.append("<stop>")
-                break
-            got.append(_match_repr(item) if hasattr(item, "span") else [list(item[0]), item[1]])
+        _lazy_advance(g, got, op["n"])
         return ["ok", got]
     return run_op(op, {})
 
@@ -915,7 +920,7 @@ def generate(rng: random.Random, profile: Optional[Dict[str, Any]] = None) -> Di
     return {"engine": "e2", "knobs": knobs, "ops": ops}
 
 
-def generate_sweep(rng: random.Random, index: int, of: int) -> Dict[str, Any]:
+def generate_sweep(rng: random.Random, index: int, of: int, light: bool = False) -> Dict[str, Any]:
     """Systematic part: every corpus entry gets the cheapest history that matters
     -- its own rule and format_code, each twice in a row, plain and with an ignore
     comment -- inside one long-lived process per slice of the corpus."""
@@ -936,17 +941,19 @@ def generate_sweep(rng: random.Random, index: int, of: int) -> Dict[str, Any]:
         xi = gen.with_ignore(rng, x)
         if xi != x:
             variants.append(xi)
-        for v in variants:
+        for vi, v in enumerate(variants):
             if r:
                 ops.append({"op": "RULE", "rule": r, "x": v})
                 ops.append({"op": "RULE", "rule": r, "x": v})
+            if light and vi > 0 and r:
+                continue  # quick tier: the ignore variant goes through its rule only (format_code in thorough)
             ops.append({"op": "FMT", "x": v})
             ops.append({"op": "FMT", "x": v})
             if knobs == "default":
                 ops.append({"op": "EVICT", "k": 120, "tag": len(ops)})
             if r:
                 ops.append({"op": "RULE", "rule": r, "x": v})
-            if knobs == "default":
+            if knobs == "default" and not light:
                 ops.append({"op": "FMT", "x": v})
     return {"engine": "e2", "knobs": knobs, "ops": ops}
 
@@ -992,7 +999,7 @@ def run_seed(seed: int, **profile) -> Dict[str, Any]:
     if profile.get("chains"):
         case = generate_chains(rng, profile)
     elif profile.get("sweep"):
-        case = generate_sweep(rng, profile["index"], profile["of"])
+        case = generate_sweep(rng, profile["index"], profile["of"], light=bool(profile.get("light")))
     else:
         case = generate(rng, profile)
     case["seed"] = seed
